@@ -280,7 +280,7 @@ func permutations(n, d int) [][]int {
 func TestC15(t *testing.T) {
 	env := kit.GetEnv()
 	rep := kit.NewReport("C15", env)
-	rep.Rule = "(a) controlled scheduler: 2-3 threads x 1-2 real Seal calls (regular / priority end-to-end frames, link frames) on ONE shared session with the out counters preset to {5, 2^32-3, 2^32-2, 2^32-1}; scheduling points at every Mutex, atomic and Pool operation of the state and frame packages (imports rewritten to shims); ALL schedules with at most B preemptions (iterative preemption bounding); per execution: no two frames of a class share (key, sequence number), every frame unseals at the receiver when delivered in (epoch, sequence) order, no deadlock/panic; (b) sequential, for both key-exchange roles of the sender: regular counter presets 2^32-S..2^32+S x all {R,P} mixes of length L sealed by the real sender and delivered in order (all must unseal, replays rejected, after the wrap keys in sync, fresh priority frame unseals, old-key frames rejected) and under every permutation with displacement <= D for selected mixes, against a reference receiver with an explicit key epoch; (e) every sequence of length L over {A,B} x {regular, priority} sends and FAILED key setups on the live sessions (an answer nobody asked for, a low-order key, a wrong exchange type): no number repeats under a key, every frame unseals; (d) link frames: N frames sealed in order with the wrap at every position, delivered under every permutation with displacement <= D against a reference receiver with an explicit key epoch, then two more frames in order (same next key on both ends); (c) duplex, both key-exchange roles: every sequence of length L over {A,B} x {regular, priority} sends, each delivered at once, with A's regular counter preset so that the wrap falls at every position (B's counters mid-life): no (sender, class, key, sequence number) repeats - counting the numbers used before the run -, every frame unseals, and every frame delivered earlier is rejected when replayed after each later event; link-session duplex tier: every seal order of length 6 (thorough 8) over both ends of one link session pair with both wraps 0..3 frames ahead - each frame unseals at the other end at once and never at its own sender; non-trivial = schedules (a) and wrap-crossing or reordered runs (b); states (a) = distinct assignments of sequence numbers to threads observed"
+	rep.Rule = "(a) controlled scheduler: 2-3 threads x 1-2 real Seal calls (regular / priority end-to-end frames, link frames) on ONE shared session with the out counters preset to {5, 2^32-3, 2^32-2, 2^32-1}; scheduling points at every Mutex, atomic and Pool operation of the state and frame packages (imports rewritten to shims); ALL schedules with at most B preemptions (iterative preemption bounding); per execution: no two frames of a class share (key, sequence number), every frame unseals at the receiver when delivered in (epoch, sequence) order, no deadlock/panic; (b) sequential, for both key-exchange roles of the sender: regular counter presets 2^32-S..2^32+S x all {R,P} mixes of length L sealed by the real sender and delivered in order (all must unseal, replays rejected, after the wrap keys in sync, fresh priority frame unseals, old-key frames rejected) and under every permutation with displacement <= D for selected mixes, against a reference receiver with an explicit key epoch; (e) every sequence of length L over {A,B} x {regular, priority} sends and FAILED key setups on the live sessions (an answer nobody asked for, a low-order key, a wrong exchange type): no number repeats under a key, every frame unseals; (d) link frames: N frames sealed in order with the wrap at every position, delivered under every permutation with displacement <= D against a reference receiver with an explicit key epoch, then two more frames in order (same next key on both ends); (c) duplex, both key-exchange roles: every sequence of length L over {A,B} x {regular, priority} sends, each delivered at once, with A's regular counter preset so that the wrap falls at every position (B's counters mid-life): no (sender, class, key, sequence number) repeats - counting the numbers used before the run -, every frame unseals, and every frame delivered earlier is rejected when replayed after each later event; (f) three whole key epochs in a row on one session (link frames and end-to-end regular frames, both key-exchange roles): frames around sequence number 255, then the counters 0..254 numbers before the wrap, replays of the frames recorded around 255 (refused, session undisturbed), then on across the wrap in order; link-session duplex tier: every seal order of length 6 (thorough 8) over both ends of one link session pair with both wraps 0..3 frames ahead - each frame unseals at the other end at once and never at its own sender; non-trivial = schedules (a) and wrap-crossing or reordered runs (b); states (a) = distinct assignments of sequence numbers to threads observed"
 	rep.Assumptions = []string{
 		"scheduling points are the synchronisation operations of the state and frame packages; unsynchronised accesses between them would need a separate free-running race-detector pass (supporting evidence only)",
 		"the receiver is driven sequentially; delivery across the key switch is in (epoch, sequence) order because the statement does not promise cross-epoch reordering",
@@ -290,6 +290,7 @@ func TestC15(t *testing.T) {
 	runSeqTier(t, rep, env)
 	runDuplexTier(t, rep, env)
 	runLinkTier(t, rep, env)
+	runEpochTier(t, rep, env)
 	runLinkDuplexTier(t, rep, env)
 	runFailedSetupTier(t, rep, env)
 	if err := rep.Finish(env); err != nil {
